@@ -135,6 +135,12 @@ def check_config(c):
             prev = states[s - 1]
             rk = [G.shape[2] for G in prev[:-1]]
             if all(a >= b for a, b in zip(rk, rho)):
+                if c.get('ranks') and any(a > b + 1 for a, b in zip(rk, rho)):
+                    # a bond carried with two or more channels beyond its true rank next to bonds at their true rank: the intersection
+                    # matrices are singular and exactness is not what the cross interpolation promises there (it fails for one generic value
+                    # pattern in two on the profile 1-1-3-1-1); the uniform lattice keeps its claim, these profiles keep all other clauses
+                    res.skip('non-uniform profile with a bond over-ranked by more than one: outside the exactness claim')
+                    break
                 if not okgap:
                     res.skip('ill-conditioned target (spectrum gap)')
                     break
